@@ -70,6 +70,8 @@ func C05(c *Ctx) {
 	r.Rule("R05.1", "global SUCCESS only when complete: the global state is fed to the FSM (setFSM(&txInfo.GlobalState, ..)) only across the true edge of isMultiTxFinished; no code stores the constant SUCCESS into a GlobalState; isMultiTxFinished returns true only as count == ChildTxCount after comparing every child (any different child returns false).")
 	r.Rule("R05.2", "failure flips everything: in the failure branches (BeginMultiTXs with isFailed on an existing group, changeMultiTxStatus on a failure receipt, executor setGlobalTxStatus) a loop over ChildTxInfo assigns every child (the assignment is unconditional in its loop), the global state is set, and the contract branches remove the group from the timeout list; a child joining a group is set to BEGIN only across the edge GlobalState == BEGIN.")
 	r.Rule("R05.3", "notification routing: in addToMultiTxNotifyMap the chain a child id is filed under is derived from that id: inside a loop over the id list no fixed element (ids[const]) may feed the key of the update that appends the loop element; an update that files all ids at once lies behind the notify-source flag and its key uses only the source component of an id (the one part all children of a group share).")
+	r.Rule("R05.9", "a child belongs to the group it joins: the group's completion test only counts children (count == ChildTxCount), so whether a request is one of the children its Group declares (its destination / index among Group.Keys / Vals) has to be decided where the child begins - the failure flag handed to BeginMultiTXs (or a rejection before it) depends on a comparison with the group's declaration. Otherwise an undeclared child fills the count and the group reaches SUCCESS although a declared child never began.")
+	c.c05Membership()
 	r.NotDecided = append(r.NotDecided, "that destinations really roll back; group timing over histories")
 
 	m := c.Contracts()
@@ -563,4 +565,57 @@ func (c *Ctx) succeededBeforeOverwrite(rule string) {
 		}
 	}
 	r.Floor(rule, "tests of a child status against SUCCESS in the contracts", nTests, 2)
+}
+
+// c05Membership: R05.9.
+func (c *Ctx) c05Membership() {
+	r := c.R
+	m := c.Contracts()
+	n := 0
+	readsDeclaration := func(v ssa.Value) bool {
+		return core.Mentions(v, func(w ssa.Value) bool {
+			o, f, _, ok := core.FieldOf(w)
+			return ok && (f == "Keys" || f == "Vals") && strings.Contains(o, "pb.")
+		})
+	}
+	for _, e := range m.bvm.Edges {
+		if e.Method != "BeginMultiTXs" || len(e.Site.Call.Args) < 3 {
+			continue
+		}
+		n++
+		fn := e.From
+		// the failure flag: the pb.Bool(..) argument
+		var flag ssa.Value
+		core.Mentions(e.Site.Call.Args[len(e.Site.Call.Args)-1], func(w ssa.Value) bool {
+			if cc, ok := w.(*ssa.Call); ok && strings.HasSuffix(core.CalleeName(cc), "pb.Bool") && len(cc.Call.Args) == 1 {
+				flag = cc.Call.Args[0]
+			}
+			return false
+		})
+		ok := false
+		why := "no failure flag found at the call"
+		if flag != nil {
+			why = "the failure flag does not depend on the group's declared children"
+			if readsDeclaration(flag) {
+				ok = true
+			} else if p, isP := core.Strip(flag).(*ssa.Parameter); isP {
+				idx := -1
+				for i, q := range fn.Params {
+					if q == p {
+						idx = i
+					}
+				}
+				ss := core.StaticSitesOf(fn)
+				ok = idx >= 0 && len(ss) > 0
+				for _, site := range ss {
+					if idx >= len(site.Common().Args) || !readsDeclaration(site.Common().Args[idx]) {
+						ok = false
+					}
+				}
+			}
+		}
+		key := shortFn(fn) + ": child checked against the declared group before BeginMultiTXs"
+		r.Check(ok, "R05.9", key, c.P.Pos(e.Site.Pos()), "the failure flag depends on Group.Keys / Vals", why+": a request that carries a group descriptor it is not listed in (faulty or malicious source chain) is begun as a child; two such children complete a group of two declared ones - the global status becomes SUCCESS while a declared child never began")
+	}
+	r.Floor("R05.9", "BeginMultiTXs cross-invokes", n, 1)
 }
